@@ -1,5 +1,6 @@
 //! jrv — runtime monitors for the jsonrpsee properties C01..C20 (see /verif/DESIGN.md).
 pub mod classify;
+pub mod clientsim;
 pub mod handlers;
 pub mod jgen;
 pub mod memsrv;
